@@ -264,14 +264,23 @@ def run(pid, tier, seed, replay):
 
     # ---- J1: design check + enumeration; in parallel: the as-found variant and the random builder
     t1 = time.time()
-    nsim = 600 if tier == "quick" else 8000
+    nsim = 600 if tier == "quick" else 2500
     sim_jobs = [("sim", seed), ("sim2", seed + 1)] if tier == "quick" else \
-        [(k, seed + 1000 * i + j) for i in range(3) for j, k in enumerate(("sim", "sim2"))]
+        [(k, seed + 1000 * i + j) for i in range(8) for j, k in enumerate(("sim", "sim2"))]
     with ThreadPoolExecutor(max_workers=5) as ex:       # j1 itself fans out into one TLC per family group
         f_main = ex.submit(j1, consts, tier, "intended", True, 2400)
         f_asf = ex.submit(j1, consts, "tiny", "asfound", False, 600)
-        f_sims = [ex.submit(j1_sim, consts, nsim, sd, 1800, kind) for kind, sd in sim_jobs]
-        main, ra, rss = f_main.result(), f_asf.result()[0], [f.result() for f in f_sims]
+        f_sims = [ex.submit(j1_sim, consts, nsim, sd, 900, kind) for kind, sd in sim_jobs]
+        main, ra = f_main.result(), f_asf.result()[0]
+        rss, sim_failed = [], 0
+        for f in f_sims:            # sampling on top of the enumeration: a slow machine yields fewer samples, not a failure
+            try:
+                rss.append(f.result())
+            except vlib.Inconclusive as e:
+                sim_failed += 1
+                vlib.log("[C19] simulation job dropped: %s" % str(e)[:120])
+        if not rss:
+            raise vlib.Inconclusive("every TLC simulation job timed out")
     exported, states, generated = [], 0, 0
     for fams, r in zip(FAM_GROUPS[tier], main):
         vlib.tlc_require_ok(r, "J1 Limits (Impl=intended, Tier=%s, Fams=%s)" % (tier, fams))
@@ -333,7 +342,7 @@ def run(pid, tier, seed, replay):
     return conclude(pid, tier, seed, t0, consts, table, msgs, trace, verdicts, assumptions, dict(
         states=states, transitions=generated - len(exported), j1_messages=len(exported), sim_messages=len(sim),
         families=fam_count, asfound_spec_violates=ra.violated, binding_selftest=st, tlc_trace_runs=nchunks,
-        fuzz=fuzz_info), work)
+        fuzz=fuzz_info, sim_jobs=len(sim_jobs), sim_jobs_dropped=sim_failed), work)
 
 
 def conclude(pid, tier, seed, t0, consts, table, msgs, trace, verdicts, assumptions, cov, work):
@@ -397,8 +406,9 @@ def conclude(pid, tier, seed, t0, consts, table, msgs, trace, verdicts, assumpti
              "generated by the harness (family fuzz, not deduplicated); non-trivial = violates at least one clause of "
              "WithinLimits (each must be refused by the real code)",
         accepted=accepted, rejected=len(verdicts) - accepted, outcome_reasons=reasons, samples=samples,
-        exhaustive=True, exhaustive_note="the covering enumeration is complete (every family member executed); the product "
-                                         "space of all class combinations is sampled by simulation only",
+        exhaustive=False, exhaustive_note="every member of every covering family is model-checked and executed; the full "
+                                          "product of all class combinations and the interior of the ranges are only "
+                                          "sampled (TLC simulation, random concrete messages)",
         drift_steps=drift, reason_drift=reason_drift, limits_table=table["raw"], units=
         {k: consts[k] for k in ("UnitCPU", "UnitMem", "UnitSto")},
         interior_points={k: consts[k] for k in consts if k.startswith("Mid")}, stores_in_frame=table["stores"])
